@@ -51,7 +51,7 @@ structure Tpl where
   ins : List Utxo
   outs : List TOut
   fee : Nat
-deriving Repr
+deriving Repr, DecidableEq
 
 /-- `MergeSpendAction`: spends of the same (asset, account) are added into the first one -/
 def mergeInto (acct asset amount : Nat) (useUnc : Bool) : List Action → Option (List Action)
@@ -61,12 +61,14 @@ def mergeInto (acct asset amount : Nat) (useUnc : Bool) : List Action → Option
     else (mergeInto acct asset amount useUnc rest).map (Action.spend a s m u :: ·)
   | x :: rest => (mergeInto acct asset amount useUnc rest).map (x :: ·)
 
-def mergeSpends (actions : List Action) : List Action :=
-  actions.foldl (fun acc a => match a with
-    | .spend ac s m u => match mergeInto ac s m u acc with
-      | some acc' => acc'
-      | none => acc ++ [a]
-    | _ => acc ++ [a]) []
+def mergeStep (acc : List Action) (a : Action) : List Action :=
+  match a with
+  | .spend ac s m u => match mergeInto ac s m u acc with
+    | some acc' => acc'
+    | none => acc ++ [a]
+  | _ => acc ++ [a]
+
+def mergeSpends (actions : List Action) : List Action := actions.foldl mergeStep []
 
 def ofAssetIn (asset : Nat) (l : List Utxo) : Nat := amounts (l.filter (fun u => u.asset == asset))
 def ofAssetOut (asset : Nat) (l : List TOut) : Nat := ((l.filter (fun o => o.asset == asset)).map (·.amount)).sum
